@@ -387,8 +387,15 @@ func c06Replay(args []string) int {
 			}
 			// cache key -> (URL, X-Vary): either distinct URLs or one URL told apart by the header vcl_hash adds
 			path, vary := r.URL, ""
-			if !*plain && b.defines("hash") && (seed+int64(n))%2 == 1 {
-				path, vary = "k", r.URL
+			if !*plain {
+				switch (seed + int64(n)) % 3 {
+				case 1:
+					if b.defines("hash") {
+						path, vary = "k", r.URL
+					}
+				case 2: // keys that differ only in the query string
+					path = "k?q=" + r.URL
+				}
 			}
 			hash, known := hashes[r.URL]
 			before := false
